@@ -26,7 +26,10 @@ import (
 	"github.com/semihalev/sdns/middleware/as112"
 	"github.com/semihalev/sdns/middleware/cache"
 	"github.com/semihalev/sdns/middleware/edns"
+	"github.com/semihalev/sdns/internal/verif/srvh"
 	"github.com/semihalev/sdns/middleware/ratelimit"
+	"github.com/semihalev/sdns/middleware/reflex"
+	"github.com/semihalev/sdns/server"
 )
 
 // probe is the handler behind the one under test: it records that it was
@@ -324,4 +327,117 @@ func execSX(a map[string]string) vlib.Res {
 		or = "FAIL sig=c05/suffix-walk/decoded-walks-differ want=" + w
 	}
 	return vlib.Res{Impl: impl, Oracle: or, Tags: "nt"}
+}
+
+// ---------------------------------------------------------------- rx
+
+// `rx facts pkt=<hex>`: what reflex scores a request with — wire-born vs message-born.
+func execRX(a map[string]string) vlib.Res {
+	pkt := vlib.UnHex(a["pkt"])
+	ws, ms := "none", "skip"
+	or := "ok"
+	if wreq := middleware.VerifC05WireRequest(pkt); wreq != nil {
+		qt, size, ok := reflex.VerifC05RequestFacts(wreq)
+		ws = fmt.Sprintf("%d/%d/%s", qt, size, vlib.B(ok))
+		m := new(dns.Msg)
+		if err := m.Unpack(pkt); err == nil && len(m.Question) == 1 {
+			qt2, size2, ok2 := reflex.VerifC05RequestFacts(middleware.NewRequest(m))
+			ms = fmt.Sprintf("%d/%d/%s", qt2, size2, vlib.B(ok2))
+			// oracle: a request is as large as the packet the client sent, whoever measures it
+			if qt != qt2 || size != size2 || size != len(pkt) {
+				or = fmt.Sprintf("FAIL sig=c05/reflex/request-facts-differ wire=%s msg=%s packet=%d", ws, ms, len(pkt))
+			}
+		}
+	}
+	return vlib.Res{Impl: "w=" + ws + " m=" + ms, Oracle: or, Tags: "nt"}
+}
+
+// ---------------------------------------------------------------- sock
+
+// `sock probe pkt=<hex>`: the packet over the REAL UDP and TCP sockets of a listening
+// instance (the UDP reader's inline pass included, where the platform arms it). Header-level
+// verdicts (ignore / NOTIMP / FORMERR) are the engines' own: both must answer what
+// acceptHeader says.
+func sockExchange(network string, pkt []byte, wait time.Duration) string {
+	c, err := net.DialTimeout(network, live.Addr, time.Second)
+	if err != nil {
+		return "dial-error"
+	}
+	defer c.Close()
+	out := pkt
+	if network == "tcp" {
+		out = append([]byte{byte(len(pkt) >> 8), byte(len(pkt))}, pkt...)
+	}
+	if _, err := c.Write(out); err != nil {
+		return "write-error"
+	}
+	_ = c.SetReadDeadline(time.Now().Add(wait))
+	buf := make([]byte, 65535+2)
+	n, err := c.Read(buf)
+	if err != nil || n == 0 {
+		return "silent"
+	}
+	b := buf[:n]
+	if network == "tcp" {
+		if n < 2 {
+			return "short"
+		}
+		b = b[2:]
+	}
+	if len(b) < 12 {
+		return "short"
+	}
+	return fmt.Sprintf("rcode=%d/qr=%d/op=%d", b[3]&0xF, b[2]>>7, (b[2]>>3)&0xF)
+}
+
+func execSock(f []string) vlib.Res {
+	a := kv(f[2:])
+	switch f[1] {
+	case "new":
+		stopLive()
+		liveC = liveCfg{handlers: []string{"recovery", "edns", "cache"}, rfc8198: true, rfc9520: true}
+		hasRL, hasEDNS = false, true
+		live = srvh.Start(srvh.Opts{Handlers: liveC.handlers, Listen: true})
+		live.Stub.Set(stubRespond)
+		opSeq = 0
+		slabs = [4]*server.VerifJob{}
+		return vlib.Res{Impl: "ok", Oracle: "-"}
+	case "probe":
+		if live == nil {
+			return vlib.Res{Impl: "no-live"}
+		}
+		pkt := vlib.UnHex(a["pkt"])
+		verdict := server.VerifC05AcceptHeader(pkt)
+		wait := 1500 * time.Millisecond
+		if verdict == 1 {
+			wait = 120 * time.Millisecond // nothing is expected back
+		}
+		u := sockExchange("udp", pkt, wait)
+		t := sockExchange("tcp", pkt, wait)
+		if verdict == 0 {
+			// an accepted header goes to the pipeline: what comes back is the other ops' business
+			norm := func(x string) string {
+				if strings.HasPrefix(x, "rcode=") {
+					return "served"
+				}
+				return x
+			}
+			u, t = norm(u), norm(t)
+		}
+		want := map[int]string{1: "silent", 2: "rcode=4", 3: "rcode=1"}[verdict]
+		or := "ok"
+		if verdict != 0 {
+			for _, x := range []struct{ n, got string }{{"udp", u}, {"tcp", t}} {
+				if !strings.HasPrefix(x.got, want) {
+					or = fmt.Sprintf("FAIL sig=c05/engine/header-verdict-%s want=%s got=%s", x.n, want, x.got)
+					break
+				}
+			}
+		}
+		if or == "ok" && u != t {
+			or = fmt.Sprintf("FAIL sig=c05/engine/udp-tcp-differ udp=%s tcp=%s", u, t)
+		}
+		return vlib.Res{Impl: fmt.Sprintf("verdict=%d udp=%s tcp=%s", verdict, u, t), Oracle: or, Tags: "nt"}
+	}
+	return vlib.Res{Impl: "bad-op"}
 }
